@@ -174,7 +174,10 @@ pub fn check_case(ctx: &Ctx, ws: &mut Workers, c: &HistCase, counting: bool, cfg
 fn reduce(ctx: &Ctx, ws: &mut Workers, c: &HistCase, f: &Failure, cfgs: &[Config], tag: &str) -> (HistCase, Failure) {
     let mut cur = c.clone();
     let mut last = f.clone();
-    let mut budget = 400usize;
+    let mut budget = 160usize;
+    // reduce in the configuration that failed only
+    let failing: Vec<Config> = cfgs.iter().filter(|c| f.detail.contains(&format!("config: {}\n", c.label()))).cloned().collect();
+    let cfgs: &[Config] = if failing.is_empty() { cfgs } else { &failing[..1] };
     let mut chunk = (cur.history.steps.len() / 2).max(1);
     while chunk >= 1 && budget > 0 {
         let mut i = 0;
@@ -215,8 +218,19 @@ fn reduce(ctx: &Ctx, ws: &mut Workers, c: &HistCase, f: &Failure, cfgs: &[Config
     (cur, last)
 }
 
+/// exclusion list for the expression generator (set from the known findings at start-up)
+pub static AVOID_GLOBAL: std::sync::Mutex<Vec<String>> = std::sync::Mutex::new(Vec::new());
+
+pub fn avoid() -> Vec<String> {
+    AVOID_GLOBAL.lock().unwrap().clone()
+}
+
+pub fn set_avoid(ctx: &Ctx) {
+    *AVOID_GLOBAL.lock().unwrap() = crate::checks::c01::avoid_list(ctx);
+}
+
 pub fn opts(ctx: &Ctx) -> HistOpts {
-    HistOpts { max_ops: if ctx.quick() { 40 } else { 120 }, fail_weight: 3, bulk: true }
+    HistOpts { avoid: avoid(), max_ops: if ctx.quick() { 40 } else { 120 }, fail_weight: 3, bulk: true }
 }
 
 pub fn run(ctx: &Ctx, replay: Option<&str>) -> i32 {
@@ -230,6 +244,7 @@ pub fn run(ctx: &Ctx, replay: Option<&str>) -> i32 {
          among >=6 steps.",
     );
     ctx.assume("the reference interpreter's binding model (DESIGN.md C06): definitions create locations, compiled code keeps the locations it resolved");
+    set_avoid(ctx);
     let cfgs = vec![Config::default_cfg(), Config::jit_off()];
     let tag = "c06";
     if let Some(path) = replay {
@@ -254,13 +269,13 @@ pub fn run(ctx: &Ctx, replay: Option<&str>) -> i32 {
         let mut ws = Workers::new();
         replay_tier::<HistCase>(ctx, "hist", &mut |c| check_case(ctx, &mut ws, c, false, &cfgs, tag));
     }
-    let total = ctx.n(400, 20_000);
+    let total = ctx.n(3000, 60_000);
     let o_max = opts(ctx).max_ops;
     let fails = run_prop(
         ctx,
         "hist",
         || {
-            prop::collection::vec(any::<u16>(), 0..1500).prop_map(move |d| case_from_choices(&d, &HistOpts { max_ops: o_max, fail_weight: 3, bulk: true }))
+            prop::collection::vec(any::<u16>(), 0..1500).prop_map(move |d| case_from_choices(&d, &HistOpts { avoid: avoid(), max_ops: o_max, fail_weight: 3, bulk: true }))
         },
         total,
         |ws, c, counting| match check_case(ctx, ws, c, counting, &cfgs, tag) {
